@@ -588,6 +588,24 @@ func (f *Frame) execAppend(cc *ssa.CallCommon, pos token.Pos, args []Val) Val {
 		c.idxLe(mid, J), c.idxLt(J, end), na, J, srcAt(c.idxSub(J, mid)),
 		fits, c.idxLe(roff, J), c.idxLt(J, end), na, J, oldArr, J,
 		na, J))
+	if c.wantText && isByteSlice(s.T) {
+		// the same facts at the level of texts (consequences of the byte-level ones):
+		// the appended part is the text of the source; every part of the old prefix keeps its text
+		c.sortOf(textType)
+		c.declStrEq()
+		c.decl("fn:txt", "(declare-fun txt (Str) Txt)")
+		c.decl("ax:txt", "(assert (forall ((a!t Str) (b!t Str)) (! (= (streq a!t b!t) (= (txt a!t) (txt b!t))) :pattern ((txt a!t) (txt b!t)))))")
+		var srcTxt string
+		if srcIsString {
+			srcTxt = fmt.Sprintf("(txt (mkstr (sarr %s) (soff %s) (slen %s) 0))", src.S, src.S, src.S)
+		} else {
+			srcTxt = fmt.Sprintf("(txt (mkstr (select %s (sbase %s)) (xoff %s) (xlen %s) 0))", h, src.S, src.S, src.S)
+		}
+		c.assume(fmt.Sprintf("(= (txt (mkstr %s %s %s 0)) %s)", na, mid, n, srcTxt))
+		c.assume(fmt.Sprintf("(forall ((lo!app %s) (n!app %s)) (! (=> (and %s %s %s) (= (txt (mkstr %s lo!app n!app 0)) (txt (mkstr %s %s n!app 0)))) :pattern ((txt (mkstr %s lo!app n!app 0)))))",
+			ksort, ksort, c.idxLe(roff, "lo!app"), c.idxLe(c.idxLit(0), "n!app"), c.idxLe(c.idxAdd("lo!app", "n!app"), mid),
+			na, oldArr, c.idxAdd(c.idxSub("lo!app", roff), fmt.Sprintf("(xoff %s)", s.S)), na))
+	}
 	f.frameWrite(hn, fmt.Sprintf("(sbase %s)", res), pos)
 	f.st.heaps[hn] = c.bind(hn, fmt.Sprintf("(store %s (sbase %s) %s)", h, res, na), hs)
 	return Val{T: s.T, S: res}
